@@ -309,6 +309,11 @@ impl<'c, Q: Queue> Interp<'c, Q> {
                 Carrier::JsonText => T::from_json(&q.to_json()?),
                 Carrier::JsonValue => T::from_value(q.to_value()?),
                 Carrier::SeqDe => T::from_pairs(q.iter().map(|(k, p)| ((k.id, k.tag), p.v)).collect()),
+                Carrier::InPlace => {
+                    let mut dst = T::from_vec((0..3u32).map(|i| (Key::new(4_000_000 + i, 0), Prio::new(3 - i as i64))).collect());
+                    T::from_json_in_place(&mut dst, &q.to_json()?)?;
+                    Ok(dst)
+                }
             }
         }
         let n = self.model.len();
@@ -358,6 +363,11 @@ impl<'c, Q: Queue> Interp<'c, Q> {
                 Carrier::JsonText => T::from_json(&serde_json::to_string(raw).unwrap()),
                 Carrier::JsonValue => T::from_value(serde_json::to_value(raw).unwrap()),
                 Carrier::SeqDe => T::from_pairs(raw.to_vec()),
+                Carrier::InPlace => {
+                    let mut dst = T::from_vec((0..3u32).map(|i| (Key::new(4_000_000 + i, 0), Prio::new(3 - i as i64))).collect());
+                    T::from_json_in_place(&mut dst, &serde_json::to_string(raw).unwrap())?;
+                    Ok(dst)
+                }
             }
         }
         let mut offered: BTreeMap<u32, Vec<(u32, i64)>> = BTreeMap::new();
